@@ -1,0 +1,10 @@
+//go:build !verif
+
+// Purpose: Default (no-op) side of the verification-only id hook.
+// Exports: none.
+// Role: Keeps the hook call site free in normal builds.
+// Invariants: Always reports that no id is forced.
+// Notes: See verif_hook_on.go (build tag verif).
+package ergo
+
+func verifNextID() (string, bool) { return "", false }
